@@ -22,6 +22,9 @@ func checkC14(c *Ctx) {
 		c.noBreakLoops("NO-BREAK", fi, "partitions the tips exactly into the groups connected by branches shorter than the threshold", "starts a flood fill from every branch")
 	}
 	c.Floor("NO-BREAK", 1)
+	c.Decides("THRESHOLD-AS-GIVEN: the cut functions never assign their threshold parameter: lengths are compared with the value given")
+	c.thresholdAsGiven("THRESHOLD-AS-GIVEN", []*FuncInfo{c.Func("tree", "Tree", "CutEdgesMaxLength"), c.Func("tree", "Tree", "cutEdgesMaxLengthRecur")}, "partitions the tips exactly into the groups connected by branches shorter than the threshold")
+	c.Floor("THRESHOLD-AS-GIVEN", 2)
 	c.pathLengthsTable()
 	c.Decides("TABLE: in the matrix command the documented values of -m select the metric they name (brlen, boot, none)")
 	c.matrixMetricTable("TABLE", "according to the chosen metric")
